@@ -46,25 +46,71 @@ def _cte_body(sql, name):
     return None
 
 
-def classify(verdict, sql):
-    """finding class of a non-ok binder verdict: <rule>:<shape> (specific: symptom + the SQL shape it occurs in)"""
+# ---------------------------------------------------------------------------------------------------------------------------------------
+# FINDING KEYS.  key = C03:<symptom>:<sql site>:<query shape>
+#   symptom    what the verified binder / resolution semantics reports (unbound frame sN, unbound table alias nK / eK, missing column, …)
+#   sql site   WHERE in the emitted statement the dangling reference sits, read off the SQL text: for an unbound frame sN — inside sN's own
+#              definition (and how sN appears in that FROM clause: `from sN join edge`, `, unnest(`, `left outer join`, lateral, seed, comma)
+#              or only in its select list (`select-list-only`), or in a later select that lacks sN in FROM (`referenced-outside-definition`),
+#              or never defined; for an unbound alias — forward reference in a JOIN … ON, a binding that exists only as a select-list alias
+#              (`binding-referenced-without-frame`), or an alias that is defined nowhere (`alias-undefined`).
+#   shape      the ENABLING feature of the Cypher query: lib/cyshape.py computes a fixed vocabulary of structural features of the query text
+#              (clause sequence, which pattern / WHERE / inline property map / WITH item reads a binding of an earlier clause, variable-length
+#              steps, repeated node variables, alias rebinding …); SHAPES lists, per symptom:site, the feature sets that the registered
+#              findings are CAUSED by (first match wins). A query that shows the symptom at that site WITHOUT any listed enabling feature set
+#              gets the shape `unrecognised-query-shape` — that key is never registered, so it is a VIOLATION. Query-builder ASTs (`b` ops)
+#              have the shape `query-builder-ast`.
+# The focused generator families (harness/focused.go) emit minimal queries per shape, so a regression on one of them carries few features
+# and cannot borrow the enabling features of a registered finding.
+import cyshape
+
+SHAPES = {
+    "frame-cte-referenced-in-own-definition:bound-node-traversal": [("traversal-in-part-followed-by-with", {"rel-pattern-in-part-followed-by-with"})],
+    "frame-cte-referenced-in-own-definition:optional-match-left-join": [("optional-match-after-earlier-clause", {"optional-match-after-earlier-clause", "with"})],
+    "frame-cte-referenced-in-own-definition:unwind-source": [("unwind-first-in-part-followed-by-with", {"unwind-first-in-part-followed-by-with"})],
+    "frame-cte-referenced-in-own-definition:bound-node-expansion-seed": [("expansion-from-carried-node", {"varlen-uses-earlier-binding", "rel-pattern-in-part-followed-by-with"})],
+    "frame-cte-referenced-in-own-definition:comma-joined-pattern": [("expansion-after-earlier-clause-in-part-followed-by-with", {"varlen-after-earlier-clause", "rel-pattern-in-part-followed-by-with"})],
+    "join-on-forward-reference:node-alias": [("same-node-variable-twice-in-pattern", {"same-node-var-twice-in-pattern"})],
+    "frame-cte-undefined:never-defined": [("self-loop-pattern-after-leading-unwind", {"leading-unwind", "same-node-var-twice-after-earlier-clause"})],
+    "frame-column-missing:sN.iN": [("unwind-then-optional-match", {"unwind", "optional-match-after-earlier-clause", "with"})],
+    "unsatisfied-future:pattern-predicate-placeholder": [("pattern-predicate-in-with-where", {"pattern-predicate-in-with-where"})],
+    "binding-referenced-without-frame:edge": [("expansion-next-to-fixed-pattern", {"varlen", "rel-pattern"})],
+    "frame-cte-missing-from-from-clause:referenced-outside-definition": [
+        ("expansion-after-earlier-clause", {"varlen-after-earlier-clause"}),
+        ("pattern-predicate", {"pattern-predicate"})],
+    "frame-cte-referenced-in-own-definition:select-list-only": [
+        ("expression-alias-onto-existing-name", {"with-expression-alias-onto-existing-name"}),
+        ("path-variable-carried-through-with", {"path-variable-carried-through-with"}),
+        ("pattern-predicate", {"pattern-predicate"})],
+    "frame-column-missing:sN.nN": [("pattern-predicate-after-expansion", {"pattern-predicate", "varlen"})],
+    "binding-referenced-without-frame:node": [
+        ("expansion", {"varlen"}),
+        ("pattern-predicate-after-earlier-clause", {"pattern-predicate", "match-after-earlier-clause"}),
+        ("predicate-on-binding-carried-through-with", {"with"})],
+}
+
+
+def _symptom_site(verdict, sql):
     parts = verdict.split()
     kind, name = parts[0], (parts[1] if len(parts) > 1 else "")
     if kind == "unbound" and re.fullmatch(r"s\d+", name):
         body = _cte_body(sql, name)
-        if body is not None:
-            m = re.search(r"\bfrom %s\b(.{0,24})" % name, body)
-            if m:
-                after = m.group(1)
-                shape = ("unwind-source" if after.startswith(", unnest(") else
-                         "bound-node-traversal" if after.startswith(" join edge") else
-                         "bound-node-expansion" if " join lateral" in after or after.startswith(", lateral") else
-                         "optional-match-left-join" if after.startswith(" left outer join") else
-                         "bound-node-expansion-seed" if (after.startswith(")") or after.startswith(" where")) else
-                         "comma-joined-pattern" if after.startswith(", ") else "other")
-                return "frame-cte-referenced-in-own-definition:" + shape
-            return "frame-cte-missing-from-from-clause:defined-but-not-joined"
-        return "frame-cte-undefined:never-defined"
+        if body is None:
+            return "frame-cte-undefined:never-defined"
+        m = re.search(r"\bfrom %s\b(.{0,24})" % name, body)
+        if m:
+            after = m.group(1)
+            shape = ("unwind-source" if after.startswith(", unnest(") else
+                     "bound-node-traversal" if after.startswith(" join edge") else
+                     "bound-node-expansion" if " join lateral" in after or after.startswith(", lateral") else
+                     "optional-match-left-join" if after.startswith(" left outer join") else
+                     "bound-node-expansion-seed" if (after.startswith(")") or after.startswith(" where")) else
+                     "comma-joined-pattern" if after.startswith(", ") else "other-from-item")
+            return "frame-cte-referenced-in-own-definition:" + shape
+        if re.search(r"\b%s\." % name, body):
+            # the frame is read in its own definition although it is no FROM item there at all
+            return "frame-cte-referenced-in-own-definition:select-list-only"
+        return "frame-cte-missing-from-from-clause:referenced-outside-definition"
     if kind == "unbound" and re.fullmatch(r"[ne]\d+", name):
         what = "node" if name.startswith("n") else "edge"
         for m in re.finditer(r"\bjoin (?:node|edge) %s on\b|\blateral \([^;]*?\) %s on\b" % (name, name), sql):
@@ -86,6 +132,31 @@ def classify(verdict, sql):
     return kind + ":" + re.sub(r"\d+", "N", name)[:40]
 
 
+def _query_of(op):
+    m = re.match(r'q ("(?:[^"\\]|\\.)*")', op)
+    if not m:
+        return None
+    try:
+        return json.loads(m.group(1))
+    except ValueError:
+        return None
+
+
+def classify(verdict, sql, op=""):
+    """finding class of a non-ok binder verdict: <symptom>:<sql site>:<query shape> (see the comment above SHAPES)"""
+    ss = _symptom_site(verdict, sql)
+    if op.startswith("b "):
+        return ss + ":query-builder-ast"
+    q = _query_of(op)
+    if q is None:
+        return ss + ":unrecognised-query-shape"
+    feats = cyshape.features(q)
+    for shape, need in SHAPES.get(ss, []):
+        if need <= feats:
+            return ss + ":" + shape
+    return ss + ":unrecognised-query-shape"
+
+
 def impl_view(impl):
     return "-"
 
@@ -104,7 +175,7 @@ def judge(op, impl, model):
         return "ok"
     if v in ("skip", "bad-op", ""):
         return "reject driver-could-not-read " + v
-    return "reject %s %s" % (classify(v, _sql(impl)), v.replace(" ", "_"))
+    return "reject %s %s" % (classify(v, _sql(impl), op), v.replace(" ", "_"))
 
 
 def nontrivial(ops, impl):
@@ -156,6 +227,11 @@ SPEC = {
             "+ structured random queries (levels 1-5: single pattern … OPTIONAL MATCH / quantifiers / pattern predicates / expansions / multi-part; 120 per level quick, "
             "4000 thorough; splitmix64(VERIF_SEED)) + query-builder ASTs from /repo/query and /repo/query/v2 (150 quick / 3000 thorough); each is translated by the REAL "
             "translator and the verified binder runs on the reflection S-expression of Result.Statement with Result.Parameters' keys and the source's updating flag; "
+            "plus FOCUSED FAMILIES (harness/focused.go): minimal queries built systematically, one scoping shape each — a binding read only from the inline property map / WHERE / "
+            "pattern predicate / endpoint of a later MATCH; renamings inside one WITH (fresh, identity, shadowing, swaps, rotations); variable-length step + fixed hops with every subset of "
+            "the suffix nodes already bound; aggregate-only projections with LIMIT. FINDING KEY = C03:<symptom>:<sql site>:<query shape>: symptom from the binder verdict, sql site from the "
+            "position of the dangling reference in the SQL text, query shape = the first ENABLING feature set (lib/cyshape.py, table SHAPES in lib/props/c03.py) the Cypher text satisfies for "
+            "that symptom:site; a query that shows the symptom at that site without any registered enabling shape is keyed `unrecognised-query-shape`, which is never registered: VIOLATION. "
             "non-trivial = the statement has >= 2 CTE frames; distinct = distinct op lines",
     "expected_branches": ["translated", "source_updating", "gen.feat.with", "gen.feat.optional-match", "gen.feat.pattern-predicate", "gen.feat.quantifier",
                           "gen.feat.expansion", "gen.feat.path-binding", "gen.feat.multi-match", "gen.feat.unwind", "builder.v1-node", "builder.v2-rel"],
